@@ -59,13 +59,9 @@ ASSUMPTIONS = [
     'is not part of the check; the cursors of find_rewind are kept and read again (the value of a '
     're-read is compared with the first read only while no write happened in between: a cursor is '
     'not required to be a snapshot)',
-    'a Cursor keeps the SORT list it was given by reference and reads it when it computes its '
-    'results (first iteration, clone()): editing the list after find() returned changes the '
-    'order the cursor gives (evidence: cursor_reads_sort_lazily).  The harness builds the sort '
-    'list inside the call and does not keep it.  The filter and (since b829c96) the projection '
-    'are copied when find() is called',
-    'what a cursor keeps is observed through the private attributes Cursor._results, _spec and '
-    '_projection',
+    'what a cursor keeps is observed through the private attributes Cursor._results, _spec, '
+    '_sort and _projection (the filter, since b829c96 the projection and since 0c1b9e0 the sort '
+    'list are copied when find() is called; the harness keeps and scribbles on all three)',
     'aggregate stages $sample, $out, $facet, $bucket are not generated (C16 covers the pipeline '
     'argument); $lookup / $graphLookup join the collection with itself; bulk_write and the '
     'deprecated entry points are not generated',
@@ -111,7 +107,9 @@ READ_ONLY = ('find', 'find_one', 'find_rewind', 'cursor_again', 'distinct', 'agg
 
 def containers(v, path=(), seen=None):
     """(object, path) of every dict / list reachable in v, pre-order, each object once (an
-    aggregation result may be cyclic: `$addFields: {'b.z': '$b'}`)"""
+    aggregation result may be cyclic: `$addFields: {'b.z': '$b'}`); a tuple is gone through but
+    not counted: it cannot be edited, and copy.deepcopy hands back the very tuple when its items
+    are scalars (the pairs of a sort list)"""
     if seen is None:
         seen = set()
     if isinstance(v, dict):
@@ -126,7 +124,8 @@ def containers(v, path=(), seen=None):
         if id(v) in seen:
             return
         seen.add(id(v))
-        yield v, path
+        if not isinstance(v, tuple):
+            yield v, path
         for i, x in enumerate(v):
             for y in containers(x, path + (i,), seen):
                 yield y
@@ -209,6 +208,7 @@ def cache_of(cur):
     """what a cursor keeps: its cached results and its copies of the query"""
     r = getattr(cur, '_results', None)
     return (r if isinstance(r, list) else []) + [getattr(cur, '_spec', None),
+                                                 getattr(cur, '_sort', None),
                                                  getattr(cur, '_projection', None)]
 
 
@@ -429,7 +429,8 @@ class HistoryRun(object):
             f = c.arg('filter', a[0])
             p = c.arg('projection', a[1]) if a[1] is not None else None
             script = a[2] if len(a) > 2 else [['rewind']]
-            cur = coll.find(f, p)
+            srt = c.arg('sort', sort_arg(a[3])) if len(a) > 3 and a[3] else None
+            cur = coll.find(f, p, sort=srt)
             first = list(cur)
             c.info['docs'] = first
             for d in first:
@@ -441,7 +442,8 @@ class HistoryRun(object):
             c.info['filled'] = True
             # the query the cursor keeps: its own copies of the filter and the projection
             c.info['kept'] = [('cursorSpec', f, getattr(cur, '_spec', None)),
-                              ('cursorProj', p, getattr(cur, '_projection', None))]
+                              ('cursorProj', p, getattr(cur, '_projection', None)),
+                              ('cursorSort', srt, getattr(cur, '_sort', None))]
             # the caller edits what it got, then asks the cursor again
             edits = []
             skip = set(id(o) for _, d in self.raw() for o, _ in containers(d))
@@ -582,7 +584,8 @@ class HistoryRun(object):
                     c.info.setdefault('kept', []).extend([
                         ('cloneSpec', getattr(cur, '_spec', None), getattr(cl, '_spec', None)),
                         ('cloneProj', getattr(cur, '_projection', None),
-                         getattr(cl, '_projection', None))])
+                         getattr(cl, '_projection', None)),
+                        ('cloneSort', getattr(cur, '_sort', None), getattr(cl, '_sort', None))])
                     rec.setdefault('clones', []).append(cl)     # kept alive: ids stay unique
                     got = list(cl)
                     for d in got:
@@ -612,7 +615,7 @@ class HistoryRun(object):
                             % act[1], 'first_read': want, 'read_again': canon(v2)}))
                 else:
                     raise ValueError('unknown cursor action %r' % (act,))
-            except (IndexError, TypeError, StopIteration) as e:
+            except (IndexError, TypeError, ValueError, StopIteration) as e:
                 self.errors['cursor:' + type(e).__name__] += 1
 
     # -- (c) arguments ----------------------------------------------------------------------
@@ -1208,7 +1211,6 @@ def run(ctx, proof, driver_ok):
         'model_operations': judge.op_rows,
         'events_on_the_real_heap': dict(judge.events),
         'witnesses_of_repaired_findings': regress,
-        'cursor_reads_sort_lazily': lazy_sort_probe(),
         'projection_flows_model_raises_python_returns': dict(judge.proj_model_errors),
         'checks': {k: v for k, v in stats.items() if not k.startswith(('op:', 'inst:'))},
         'operation_histogram': {k[3:]: v for k, v in stats.items() if k.startswith('op:')},
@@ -1225,16 +1227,6 @@ def run_one(ctx, history, oids, known=None):
     r = HistoryRun(history, oids, judge.known).run()
     judge.batch([r])
     return r, judge
-
-
-def lazy_sort_probe():
-    """not judged, recorded: does a cursor read its sort argument after find() returned?"""
-    c = mongomock.MongoClient().db.c
-    c.insert_many([{'_id': 1, 'a': 2}, {'_id': 2, 'a': 1}])
-    s = [('a', 1)]
-    cur = c.find({}, sort=s)
-    s[0] = ('a', -1)
-    return [d['_id'] for d in cur] != [2, 1]
 
 
 def regression(ctx):
@@ -1301,6 +1293,14 @@ def consequence(name):
         p.clear()
         p['b'] = 1
         return first != [{'_id': 1, 'a': 1}] or list(cur.clone()) != [{'_id': 1, 'a': 1}]
+    if name == 'cursor-sort-by-reference':
+        c.insert_many([{'_id': 1, 'a': 2}, {'_id': 2, 'a': 1}])
+        srt = [('a', 1)]
+        cur = c.find({}, sort=srt)
+        srt[0] = ('a', -1)
+        first = [d['_id'] for d in cur]
+        srt[0] = ('_id', 1)
+        return first != [2, 1] or [d['_id'] for d in cur.clone()] != [2, 1]
     if name == 'cursor-cache-alias':
         c.insert_one({'_id': 1, 'a': [1]})
         cur = c.find({})
